@@ -188,9 +188,20 @@ static void rec_frame(const vbi_sliced *s, unsigned n, int64_t pts)
         R.nf++;
         if (R.log && R.nlog < LOGMAX) R.frames[R.nlog++] = f;
 }
+/* No stream of this harness holds more than a few dozen frames.  A demultiplexer that keeps calling back (an endless
+ * "new frame" loop inside one feed call, seed C07-8) is stopped through the callback's return value and reported here,
+ * instead of waiting for the per-case watchdog (150 s, 750 s for the confirmation run). */
+#define RUNAWAY_FRAMES 3000
+static int runaway;
 static vbi_bool h_cb(vbi_dvb_demux *dx, void *ud, const vbi_sliced *s, unsigned int n, int64_t pts)
 {
         rec_frame(s, n, pts);
+        if (R.nf > RUNAWAY_FRAMES) {
+                if (!runaway) mc_violation("demux: callback invoked without end inside one feed call (more frames than the input has data units)",
+                                           "%u frames delivered, last one with %u lines", R.nf, n);
+                runaway = 1;
+                return FALSE;
+        }
         return TRUE;
 }
 
@@ -415,6 +426,32 @@ static void build_streams(void)
                 sb_end(st);
         }
 
+        /* 10: Teletext units with an undefined line number (line_offset 0, legal EN 301 775) in both field parities, at
+         * every position of a packet - in particular a second field unit as the first unit of a packet, after earlier
+         * data units: line_address() then decides "new frame" from the field alone and looks at state that the frame
+         * reset must have cleared (seed C07-8: a stale last_data_unit_id makes demux_pes_packet_frame() loop forever).
+         * Built by the multiplexer with real line numbers, the line bytes are overwritten in place.  Partition
+         * independence and termination only: frame boundaries are not recognisable by line number here. */
+        for (int ts = 0; ts < 2; ts++) {
+                static const char *PAT[6] = { "21", "12", "2", "221", "1", "212" };     /* 1 = first field, 2 = second field */
+                char nm[40]; snprintf(nm, sizeof nm, "%s-line0", ts ? "ts" : "pes");
+                st = &ST[NST++]; sb_begin(st, nm, ts, 0x10);
+                st->intact = 0;
+                frameA(st, 0);
+                for (int k = 0; k < 6; k++) {
+                        size_t at = st->n; int nl = (int) strlen(PAT[k]);
+                        static const struct h_ls L3[3] = { {'t',7}, {'t',8}, {'t',9} };
+                        sb_packet(st, 1 + k, L3, nl, 184, 184);
+                        uint8_t *u = st->b + at + (ts ? 4 : 0) + 46;
+                        for (int i = 0; i < nl; i++, u += 46) {
+                                if (u[0] != 0x02 || u[1] != 0x2C) h_die("line0: unexpected data unit in frame %d", 1 + k);
+                                u[2] = 0xC0 | ((PAT[k][i] == '1') << 5) | 0;
+                        }
+                }
+                frameA(st, 7); frameB(st, 8); if (ts) frameA(st, 9);
+                sb_end(st);
+        }
+
         /* base streams for the damage enumeration: 9 frames, the last one only flushes */
         for (int k = 0; k < 4; k++) {
                 st = &BASE[NBASE++];
@@ -610,6 +647,7 @@ static void one_call(const uint8_t *b, size_t n, int ts, struct h_ref *r)
         rec_reset(1);
         run_chunk(dx, IF_FEED, b, n);
         vbi_dvb_demux_delete(dx);
+        if (runaway) { r->n = -1; return; }
         if (R.nf > LOGMAX) h_die("too many frames");
         r->n = R.nlog; memcpy(r->f, R.frames, R.nlog * sizeof *r->f);
         ref_finish(r);
@@ -682,6 +720,7 @@ static void partition_case(uint64_t idx, void *arg)
 
         static struct h_ref one, ref;
         one_call(st->b, st->n, st->ts, &one);
+        if (one.n < 0) return;          /* runaway callback: reported by h_cb */
         ref_for_iface(&one, iface, &ref);
 
         /* the intact stream must come out as sent (base case of the recovery clause, and non-vacuity) */
@@ -741,6 +780,7 @@ static void partition_case(uint64_t idx, void *arg)
                                 mc_case(ckey, "stream=%s n=%zu at pos=%zu chunk of %zu bytes, after partition=%s", st->name, n, pos, L, upath);
                                 int rc = run_chunk(dx, iface, st->b + pos, L);
                                 transitions++;
+                                if (runaway) { stopped = 1; break; }
                                 struct h_ext e;
                                 char key[160];
                                 if (rc) {
@@ -1036,7 +1076,7 @@ static void run_stream(const struct h_stream *st, const uint8_t *d, size_t n, in
         if (chunk == 0) rc = run_chunk(dx, iface, d, n);
         else for (size_t p = 0; p < n && !rc; p += chunk) rc = run_chunk(dx, iface, d + p, n - p < chunk ? n - p : chunk);
         vbi_dvb_demux_delete(dx);
-        out->n = rc ? -1 : (R.nf > LOGMAX ? LOGMAX : (int) R.nf);
+        out->n = (rc || runaway) ? -1 : (R.nf > LOGMAX ? LOGMAX : (int) R.nf);
         out->a = R.a; out->b = R.b;
         memcpy(out->f, R.frames, R.nlog * sizeof *out->f);
 }
@@ -1240,7 +1280,7 @@ int main(int argc, char **argv)
         for (int i = 0; i < NST; i++) {
                 const char *nm = ST[i].name;
                 sel[nsel++] = i;
-                ST[i].quick = i < first_variant && (strstr(nm, "-3x1") || strstr(nm, "-foreign") || strstr(nm, "-garbage") || strstr(nm, "-var") || strstr(nm, "-private") || strstr(nm, "-short-units"));
+                ST[i].quick = i < first_variant && (strstr(nm, "-3x1") || strstr(nm, "-foreign") || strstr(nm, "-garbage") || strstr(nm, "-var") || strstr(nm, "-private") || strstr(nm, "-short-units") || strstr(nm, "-line0"));
                 if (mc_tier == MC_THOROUGH || ST[i].quick) { nrun++; if (i >= first_variant) nvar++; }
         }
         /* longest searches first */
